@@ -94,7 +94,21 @@ def harnesses(tier, seed):
                                             name_suffix="_enc"))
             except Exception as e:
                 skipped.append((s.name, variant + ":enc", repr(e)[:200]))
+    # Optional / union-with-None fields that have a NON-None default: explicit null vs default
+    for n, t, kw in DEFAULTED:
+        try:
+            hs.append(gen.custom_harness("C11", "c03", Schema("D_" + n, t, PRELUDE), "field_default", "prefix='C11'",
+                                         "prefix='C11', " + kw, name_suffix="_dec"))
+        except Exception as e:
+            skipped.append((n, "field_default:dec", repr(e)[:200]))
     return hs, skipped
+
+
+DEFAULTED = [
+    ("opt_int", "Optional[int]", "default=42"), ("opt_date", "Optional[datetime.date]", "default=datetime.date(2000, 1, 1)"),
+    ("opt_list", "Optional[List[int]]", "default_factory=lambda: [1, 2, 3]"), ("i_n_date", "Union[int, None, datetime.date]", "default=5"),
+    ("opt_mix", "Optional[Plain]", "default_factory=lambda: Plain(1)"), ("opt_lit", "Optional[Literal['a']]", "default='a'"),
+]
 
 
 def run(tier, seed):
